@@ -102,7 +102,8 @@ def expected_after_load(node, basic, ctx):
         return (refmodel.REJ, "shape")
     if kind == "list" and node.get("item"):
         if not isinstance(real, (list, tuple)):
-            return (refmodel.REJ, "not a list")
+            # to_python is lenient here (a string is iterated, a falsy scalar becomes an empty list): not modelled
+            return (U, "not a list: to_python leniency")
         out = []
         for x in real:
             r = expected_after_load(node["item"], x, ctx)
@@ -114,7 +115,7 @@ def expected_after_load(node, basic, ctx):
         return (A, out)
     if kind == "dict" and (node.get("keyf") or node.get("valuef")):
         if not isinstance(real, dict):
-            return (refmodel.REJ, "not a dict")
+            return (U, "not a dict: to_python leniency")
         out = {}
         for k, v in real.items():
             rk = expected_after_load(node.get("keyf") or {"kind": "any"}, k, ctx)
